@@ -202,6 +202,21 @@ func runC02(p *engine.Prog, r *engine.Report) {
 					}
 					continue
 				}
+				if k, ok := constString(mu.Key); ok && strings.HasPrefix(k, "__param_") && len(k) > len("__param_") {
+					b := k[len("__param_"):]
+					written[b] = mu.Value
+					if tgtLoop != nil {
+						for _, pr := range tgtLoop.header.Preds {
+							if fi.IsBackEdge(pr, tgtLoop.header) && !mu.Block().Dominates(pr) {
+								probsParams = append(probsParams, "routing parameter "+b+" is not written for every target")
+							}
+						}
+						if lp := loopOf(fi, mu.Block()); lp == nil || lp.header != tgtLoop.header {
+							probsParams = append(probsParams, "routing parameter "+b+" is written inside an inner loop")
+						}
+					}
+					continue
+				}
 				if k, ok := constString(mu.Key); ok {
 					if k == "__scheme__" {
 						schemeConst = mu
@@ -286,7 +301,17 @@ func runC02(p *engine.Prog, r *engine.Report) {
 				}
 			}
 			if v, ok := written["_hash"]; ok {
-				if !strings.Contains(fi.T(v).S, "call fmt.Sprint(") {
+				if call, ok := unwrapCT(v).(*ssa.Call); ok && engine.CalleeIs(call.Common(), "strconv", "", "FormatUint") {
+					// decimal rendering of the unsigned hash, the same text fmt.Sprint gives (the proxy parses base 10)
+					h, okH := loadOfField(call.Call.Args[0], fHash)
+					base, okB := call.Call.Args[1].(*ssa.Const)
+					if !okH || fi.T(h).S != tgt {
+						probs = append(probs, "the hash parameter is not rendered from the target's Hash")
+					}
+					if !okB || base.Value == nil || base.Value.ExactString() != "10" {
+						probs = append(probs, "the hash parameter is not rendered in base 10 (the proxy parses it as decimal)")
+					}
+				} else if !strings.Contains(fi.T(v).S, "call fmt.Sprint(") {
 					probs = append(probs, "the hash parameter is "+fi.T(v).S)
 				} else if call, ok := unwrapCT(v).(*ssa.Call); ok {
 					okH := false
@@ -321,6 +346,12 @@ func runC02(p *engine.Prog, r *engine.Report) {
 					if engine.CalleeIs(call.Common(), "net/url", "Values", "Del") {
 						if s, ok := constString(call.Call.Args[1]); ok {
 							dels[s] = true
+							reader = fn
+						} else if names, ok := constTableElems(p, call.Call.Args[1]); ok {
+							// Del(name) for every name of a package-level table of constants
+							for _, s := range names {
+								dels[s] = true
+							}
 							reader = fn
 						}
 					}
@@ -648,3 +679,95 @@ func sliceLitElems(v ssa.Value) []ssa.Value {
 }
 
 func controlsC02(p *engine.Prog) []Control { return nil }
+
+// constTableElems: v is the element variable of a range (index loop) over a package-level []string that is
+// initialised once with constants and never written again; it returns the constants.
+func constTableElems(p *engine.Prog, v ssa.Value) ([]string, bool) {
+	u, ok := v.(*ssa.UnOp)
+	if !ok {
+		return nil, false
+	}
+	ia, ok := u.X.(*ssa.IndexAddr)
+	if !ok {
+		return nil, false
+	}
+	ld, ok := ia.X.(*ssa.UnOp)
+	if !ok {
+		return nil, false
+	}
+	g, ok := ld.X.(*ssa.Global)
+	if !ok {
+		return nil, false
+	}
+	// the index runs over the whole table: a range loop (phi-based index compared with len of the same load)
+	if _, isConstIdx := ia.Index.(*ssa.Const); isConstIdx {
+		return nil, false
+	}
+	var out []string
+	nStores := 0
+	for _, fn := range ssautilAllList(p) {
+		for _, in := range allInstrs(fn) {
+			st, ok := in.(*ssa.Store)
+			if !ok || st.Addr != ssa.Value(g) {
+				continue
+			}
+			nStores++
+			if fn.Name() != "init" {
+				return nil, false
+			}
+			sl, ok := st.Val.(*ssa.Slice)
+			if !ok || sl.Low != nil || sl.High != nil {
+				return nil, false
+			}
+			al, ok := sl.X.(*ssa.Alloc)
+			if !ok {
+				return nil, false
+			}
+			for _, rr := range *al.Referrers() {
+				ia2, ok := rr.(*ssa.IndexAddr)
+				if !ok {
+					continue
+				}
+				for _, r2 := range *ia2.Referrers() {
+					if s2, ok := r2.(*ssa.Store); ok && s2.Addr == ssa.Value(ia2) {
+						c, ok := constString(s2.Val)
+						if !ok {
+							return nil, false
+						}
+						out = append(out, c)
+					}
+				}
+			}
+		}
+	}
+	// the address of the table must not be taken otherwise, and no element assigned
+	if g.Referrers() != nil {
+		return nil, false
+	}
+	if nStores != 1 || len(out) == 0 {
+		return nil, false
+	}
+	// element stores through a load of the global anywhere in kvass
+	for _, fn := range p.Funcs {
+		for _, in := range allInstrs(fn) {
+			if st, ok := in.(*ssa.Store); ok {
+				if ia3, ok := st.Addr.(*ssa.IndexAddr); ok {
+					if l3, ok := ia3.X.(*ssa.UnOp); ok && l3.X == ssa.Value(g) {
+						return nil, false
+					}
+				}
+			}
+		}
+	}
+	return out, true
+}
+
+func ssautilAllList(p *engine.Prog) []*ssa.Function {
+	var out []*ssa.Function
+	for fn := range ssautilAll(p) {
+		if fn.Pkg != nil && strings.HasPrefix(fn.Pkg.Pkg.Path(), engine.ModPath) {
+			out = append(out, fn)
+		}
+	}
+	return out
+}
